@@ -21,6 +21,9 @@ TIERS = {
     "thorough": dict(swarm=85, caps=2, swarm_dev=400, caps_dev=1, runs=2000000, miri=1200, miri_defs=24, miri_tour_defs=32),
 }
 
+# histories with sweeps (every fault position of a stream / of a record's clone) cost about ten times more
+RUNS_SCALE = {"C15": 0.3, "C16": 0.6}
+
 LEVEL = {"C04": "exploration", "C05": "exploration", "C06": "exploration", "C07": "exploration", "C15": "fault_enumeration", "C16": "fault_enumeration"}
 
 REAL = ["truc NativeRecordDefinitionBuilder + the four shipped closing strategies (run in the simulator's build script)",
@@ -313,7 +316,7 @@ def check(prop, tier, seed):
     per_profile_workers = max(1, WORKERS // 2)
     for profile in profiles:
         for faults, share in (("off", free_share), ("on", fault_share)):
-            total = int(t["runs"] * share * (0.5 if profile == "hooks" else 1))
+            total = int(t["runs"] * share * (0.5 if profile == "hooks" else 1) * (RUNS_SCALE.get(prop, 1.0) if tier == "thorough" else 1.0))
             workers = max(1, int(round(per_profile_workers * share)))
             for (start, n) in split_ranges(total, workers):
                 if n == 0:
